@@ -90,6 +90,7 @@ func cmdRun(args []string) {
 	repo := fs.String("repo", "/repo", "repository root")
 	verbose := fs.Int("v", 0, "verbosity")
 	workers := fs.Int("workers", 0, "override workers")
+	replayFile := fs.String("replay", "", "concrete replay of a recorded counterexample (interpreted SSA, fixed values and schedule)")
 	fs.Parse(args)
 	data, err := os.ReadFile(*mf)
 	if err != nil {
@@ -134,6 +135,33 @@ func cmdRun(args []string) {
 		cfg.Verbose = *verbose
 		if *workers > 0 {
 			cfg.Workers = *workers
+		}
+		if *replayFile != "" {
+			var rp struct {
+				Values []exec.ReplayValue `json:"values"`
+				Sched  []int              `json:"sched"`
+			}
+			b, err := os.ReadFile(*replayFile)
+			if err != nil {
+				fatal(err)
+			}
+			if err := json.Unmarshal(b, &rp); err != nil {
+				fatal(err)
+			}
+			cfg.Replaying = true
+			cfg.FixedValues = map[string][]string{}
+			for _, v := range rp.Values {
+				l := cfg.FixedValues[v.Tag]
+				for len(l) <= v.Occ {
+					l = append(l, "")
+				}
+				l[v.Occ] = v.V
+				cfg.FixedValues[v.Tag] = l
+			}
+			cfg.FixedSched = rp.Sched
+			cfg.Workers = 1
+			cfg.MaxPaths = 1
+			cfg.ExpectViolation = false
 		}
 		fn := pkg.Func(h.Entry)
 		hr := HarnessResult{Entry: h.Entry, Enc: cfg.Enc, Solver: cfg.Solver, Note: h.Note}
